@@ -301,10 +301,15 @@ def read_worker(args):
                     return out
                 feat("eintr_identical")
             else:
-                if ev == bev:
+                if "# readfault " not in ro.log:
                     continue        # read index beyond the last read: fault not reached
                 reached = True
                 last = ev[-1] if ev else ""
+                if not last.startswith("F readfail") and not any(e.startswith("W ") for e in ev):
+                    # (the error arrived together with some characters and the scanner stopped
+                    # for its own reasons before it read again: nothing to decide)
+                    feat("eio_no_later_read")
+                    continue
                 if not last.startswith("F readfail"):
                     out["problems"].append(("eio", "EIO at read %d on the %s path: run ended with %r "
                                             "(exit %s), expected the fatal-error hook with 'input in "
